@@ -16,9 +16,10 @@ type c11Case struct {
 	N      int         `json:"n"`
 	Boxes  []rtree.Box `json:"boxes,omitempty"` // only for small explicit trees
 	Query  rtree.Box   `json:"query"`
-	Op     string      `json:"op"`     // range | priority
-	StopAt int         `json:"stopAt"` // -1: never
-	Kind   int         `json:"kind"`   // 0 Stop, 1 wrapped Stop, 2 error, 3 wrapped error, 4 errors.Join(error, Stop), 5 two %w, 6 doubly wrapped Stop
+	Op     string      `json:"op"`                    // range | priority
+	StopAt int         `json:"stopAt"`                // -1: never
+	NegIDs bool        `json:"negativeIds,omitempty"` // records loaded with ids −n..−1 instead of 0..n−1
+	Kind   int         `json:"kind"`                  // 0 Stop, 1 wrapped Stop, 2 error, 3 wrapped error, 4 errors.Join(error, Stop), 5 two %w, 6 doubly wrapped Stop
 }
 
 func refOverlap(a, b rtree.Box) bool {
@@ -81,27 +82,35 @@ type c11Tree struct {
 	family string
 	boxes  []rtree.Box
 	tree   *rtree.RTree
+	// off: record i is loaded with RecordID i−off. off = len(boxes) makes every id negative (record
+	// ids are the caller's: geom itself uses negative ones); every id seen is decoded with +off.
+	off int
 }
 
-func c11Build(r *engine.Run, family string, boxes []rtree.Box) *c11Tree {
+func c11Build(r *engine.Run, family string, boxes []rtree.Box, negIDs bool) *c11Tree {
+	off := 0
+	if negIDs {
+		off = len(boxes)
+	}
 	items := make([]rtree.BulkItem, len(boxes))
 	for i, b := range boxes {
-		items[i] = rtree.BulkItem{Box: b, RecordID: i}
+		items[i] = rtree.BulkItem{Box: b, RecordID: i - off}
 	}
 	t := rtree.BulkLoad(items)
 	r.States.Add(1)
-	c := c11Case{Family: family, N: len(boxes)}
+	c := c11Case{Family: family, N: len(boxes), NegIDs: negIDs}
 	if len(boxes) <= 8 {
 		c.Boxes = boxes
 	}
 	// the item slice may be permuted but must hold the same items
 	seen := make([]bool, len(boxes))
 	for _, it := range items {
-		if it.RecordID < 0 || it.RecordID >= len(boxes) || seen[it.RecordID] || it.Box != boxes[it.RecordID] {
+		ix := it.RecordID + off
+		if ix < 0 || ix >= len(boxes) || seen[ix] || it.Box != boxes[ix] {
 			r.Violation("C11/bulkload.itemsCorrupted", "tree", c, fmt.Sprint(it))
 			break
 		}
-		seen[it.RecordID] = true
+		seen[ix] = true
 	}
 	if t.Count() != len(boxes) {
 		r.Violation("C11/count", "tree", c, fmt.Sprint(t.Count()))
@@ -122,11 +131,11 @@ func c11Build(r *engine.Run, family string, boxes []rtree.Box) *c11Tree {
 	if bad := t.VerifCheck(); len(bad) > 0 {
 		r.Violation("C11/structure", "tree", c, bad[0])
 	}
-	return &c11Tree{family, boxes, t}
+	return &c11Tree{family, boxes, t, off}
 }
 
 func (t *c11Tree) mk(q rtree.Box, op string, stopAt, kind int) c11Case {
-	c := c11Case{Family: t.family, N: len(t.boxes), Query: q, Op: op, StopAt: stopAt, Kind: kind}
+	c := c11Case{Family: t.family, N: len(t.boxes), Query: q, Op: op, StopAt: stopAt, Kind: kind, NegIDs: t.off != 0}
 	if len(t.boxes) <= 8 {
 		c.Boxes = t.boxes
 	}
@@ -143,7 +152,7 @@ func (t *c11Tree) search(q rtree.Box, op string, stopAt, kind int) (visits []int
 			after++
 			return nil
 		}
-		visits = append(visits, id)
+		visits = append(visits, id+t.off)
 		if stopAt >= 0 && len(visits) == stopAt+1 {
 			stopped = true
 			sent = c11Ret(kind)
@@ -202,6 +211,7 @@ func c11Query(r *engine.Run, t *c11Tree, q rtree.Box, allK bool) {
 				prev = d
 			}
 			id, found := t.tree.Nearest(q)
+			id += t.off
 			r.Transitions.Add(1)
 			if found != (len(t.boxes) > 0) {
 				r.Violation("C11/nearest.found", "search", c, fmt.Sprint(found))
@@ -245,7 +255,7 @@ func c11Query(r *engine.Run, t *c11Tree, q rtree.Box, allK bool) {
 			var wantRange []int
 			_ = t.tree.RangeSearch(q, func(id int) error { wantRange = append(wantRange, id); return nil })
 			cb := func(id int) error {
-				outer = append(outer, id)
+				outer = append(outer, id+t.off)
 				if len(outer) == k+1 {
 					if n, f := t.tree.Nearest(q); n != wantNearest || f != wantFound {
 						nestedBad = fmt.Sprint("nested Nearest ", n, f)
@@ -257,7 +267,7 @@ func c11Query(r *engine.Run, t *c11Tree, q rtree.Box, allK bool) {
 					cnt := 0
 					var first2 []int
 					if err := t.tree.PrioritySearch(q, func(id int) error {
-						first2 = append(first2, id)
+						first2 = append(first2, id+t.off)
 						if cnt++; cnt == 2 {
 							return rtree.Stop
 						}
@@ -553,7 +563,7 @@ func c11Queries(boxes []rtree.Box, perItem int) []rtree.Box {
 }
 
 func c11Main(r *engine.Run) {
-	r.Rule = "trees = every multiset of ≤k lattice boxes (corners in {0..3}², incl. points/lines) and 18 layout families at every size 0..40 plus fan-out boundary sizes; queries = lattice boxes over the extent, enclosing, far, each item's own box and edge/corner-touching boxes; callback scripts = continue^j·X for every j (sampled positions for visit lists > 12 on big trees) and X ∈ {Stop, wrapped Stop, error, wrapped error, errors.Join(error, Stop), two-%w wrapper, doubly wrapped Stop}, plus a re-entrant callback that searches the same tree at visit j (first four and last positions). states = trees, transitions = searches. non-trivial = (tree, query, op) with ≥ 2 visits (so a stop precedes the last match)"
+	r.Rule = "trees = every multiset of ≤k lattice boxes (corners in {0..3}², incl. points/lines) and 18 layout families (record ids 0..n−1 or, for a third of the trees, −n..−1) at every size 0..40 plus fan-out boundary sizes; queries = lattice boxes over the extent, enclosing, far, each item's own box and edge/corner-touching boxes; callback scripts = continue^j·X for every j (sampled positions for visit lists > 12 on big trees) and X ∈ {Stop, wrapped Stop, error, wrapped error, errors.Join(error, Stop), two-%w wrapper, doubly wrapped Stop}, plus a re-entrant callback that searches the same tree at visit j (first four and last positions). states = trees, transitions = searches. non-trivial = (tree, query, op) with ≥ 2 visits (so a stop precedes the last match)"
 	lat := c11LatticeBoxes(4)
 	// (i) all multisets of ≤ k lattice boxes; queries = all lattice boxes
 	k := 2
@@ -582,7 +592,7 @@ func c11Main(r *engine.Run) {
 		for _, j := range multisets[i] {
 			boxes = append(boxes, lat[j])
 		}
-		t := c11Build(r, "lattice-multiset", boxes)
+		t := c11Build(r, "lattice-multiset", boxes, i%2 == 1)
 		st := 1
 		if len(boxes) == 3 {
 			st = qstride
@@ -617,7 +627,7 @@ func c11Main(r *engine.Run) {
 	done = r.Parallel(len(jobs), func(i int) {
 		j := jobs[i]
 		boxes := j.f.gen(j.n)
-		t := c11Build(r, j.f.name, boxes)
+		t := c11Build(r, j.f.name, boxes, (i+j.n)%3 == 1)
 		per := 0
 		if j.n > 40 {
 			per = 8
@@ -649,7 +659,7 @@ func c11Replay(r *engine.Run, sub string, raw json.RawMessage) error {
 			}
 		}
 	}
-	t := c11Build(r, c.Family, boxes)
+	t := c11Build(r, c.Family, boxes, c.NegIDs)
 	if sub == "search" {
 		c11Query(r, t, c.Query, true)
 	}
